@@ -416,7 +416,7 @@ pub fn run(ctx: &Ctx) {
     ctx.assume("quick: 15 representative fixture seeds + synthetic seeds, positions restricted to the directory and the first 64 bytes of every table; thorough: every fixture <= 8 KB at every position, larger ones at table heads");
     ctx.assume(&format!("per-case watchdog {} ms of process CPU time (wall-clock fallback 30x; confirmed alone with a doubled budget), allocation cap 256 MiB + 4096 x input length", WATCHDOG_MS));
     let all = seeds(tier);
-    let cap = if ctx.tier.thorough() { 1500.0 } else { 40.0 };
+    let cap = if ctx.tier.thorough() { 1500.0 } else { 50.0 };
     sweep(ctx, "C01", "c01-worker", &all, tier, cap);
     ctx.set("bounds", json!({"simultaneous_faults": 1, "coupled_pairs_on_synthetic_seeds": true, "tier": tier}));
 }
